@@ -116,8 +116,59 @@ fn op_of(prop: &str, o: &Op) -> bool {
         _ => false,
     }
 }
+/// The property's own tokens through the recogniser, in runs on one parser, interleaved with sequences that end without a
+/// dispatch or carry unusual bodies (aborted / `$`-skipped CSIs with digits and `;`, long parameter lists, SO/SI and other
+/// C0 controls inside a CSI body, string sequences with ignored codes, NUL/DEL): what the listener receives must be what the
+/// grammar says, whatever preceded the token.
+fn prop_events(prop: &str, em: &mut Em, rng: &mut Rng, thorough: bool) {
+    let finals: &[&str] = match prop {
+        "C04" => &["TEXT"],
+        "C05" => &["A", "B", "C", "D", "E", "F", "G", "H", "a", "d", "e", "f", "\u{8}", "\r"],
+        "C06" => &["L", "M", "r", "ESC D", "ESC M", "ESC E", "\n", "\u{b}", "\u{c}"],
+        "C07" => &["J", "K", "X"],
+        "C08" => &["m", "m", "LONGm"],
+        "C13" => &["@", "P"],
+        "C14" => &["ESC 7", "ESC 8"],
+        "C15" => &["ESC c"],
+        "C18" => &["\t", "ESC H", "g"],
+        "C20" => &["\u{e}", "\u{f}", "ESC ( 0", "ESC ) 0", "ESC ( B", "ESC ) U", "ESC ( V", "TEXT"],
+        _ => return,
+    };
+    let n = if thorough { 6000 } else { 700 };
+    events(em, rng, n, &mut |r| {
+        let mut t = String::new();
+        let num = |r: &mut Rng| -> String { match r.below(7) { 0 => String::new(), 1 => "0".into(), 2 => "1".into(), 3 => format!("{}", 2 + r.below(30)), 4 => "9999".into(), 5 => "007".into(), _ => format!("{}", r.below(300)) } };
+        for _ in 0..(2 + r.below(4)) {
+            if r.chance(1, 3) {
+                // a disturber
+                let d = match r.below(9) {
+                    0 => format!("\u{1b}[{}{}\u{18}", if r.chance(1, 2) { "?" } else { "" }, num(r)),
+                    1 => format!("\u{1b}[{};{}\u{1a}", num(r), num(r)),
+                    2 => format!("\u{1b}[{}{}${}", if r.chance(1, 2) { "?" } else { "" }, num(r), r.pick(&['p', 'x', 'm'])),
+                    3 => format!("\u{1b}[{};{};{};{}$x", num(r), num(r), num(r), num(r)),
+                    4 => format!("\u{1b}[{}{}{}", num(r), r.pick(&["\u{e}", "\u{f}", "\u{8}", "\n", " ", ">"]), r.pick(&["m", "z", "n"])),
+                    5 => format!("\u{1b}]{};{}\u{7}", r.pick(&['4', '7', '9', 'l']), r.pick(&["pq", "12;34", ";"])),
+                    6 => r.pick(&["\0", "\u{7f}", "\u{1b}%G", "\u{1b}#3", "\u{1b}="]).to_string(),
+                    7 => { let k = 17 + r.below(20); let v: Vec<String> = (0..k).map(|_| format!("{}", r.below(50))).collect(); format!("\u{1b}[{}z", v.join(";")) }
+                    _ => format!("\u{9b}{}\u{18}", num(r)),
+                };
+                t.push_str(&d);
+            }
+            let f = *r.pick(finals);
+            let tok = if f == "TEXT" { r.pick(&["a", "lqk", "\u{e9}", "\u{3042}", "~", "x\u{301}"]).to_string() }
+                else if f == "LONGm" { let k = 14 + r.below(12); let v: Vec<String> = (0..k).map(|_| r.pick(&["0", "1", "7", "27", "31", "44", "38;5;196", "48;2;1;2;3", "22", "39"]).to_string()).collect(); format!("\u{1b}[{}m", v.join(";")) }
+                else if f == "m" { let k = r.below(5); let v: Vec<String> = (0..k).map(|_| r.pick(&["0", "1", "7", "27", "31", "44", "38;5;196", "48;2;1;2;3", "22", "39", ""]).to_string()).collect(); format!("\u{1b}[{}m", v.join(";")) }
+                else if let Some(rest) = f.strip_prefix("ESC ") { format!("\u{1b}{}", rest.replace(' ', "")) }
+                else if f.len() == 1 && f.chars().next().unwrap().is_ascii_alphabetic() || f == "@" { let ps = match r.below(4) { 0 => String::new(), 1 => num(r), 2 => format!("{};{}", num(r), num(r)), _ => format!("{};{};{}", num(r), num(r), num(r)) }; format!("{}{}{}", if r.chance(3, 4) { "\u{1b}[" } else { "\u{9b}" }, ps, f) }
+                else { f.to_string() };
+            t.push_str(&tok);
+        }
+        t });
+}
+
 /// every plan ends with its own operations probed from the exotic states
 fn universal(prop: &str, em: &mut Em, rng: &mut Rng, thorough: bool) {
+    prop_events(prop, em, rng, thorough);
     let sts = exotic_states(rng);
     if prop == "C10" { for s in sts.iter() { em.display_probe(s); } return; }
     if !matches!(prop, "C04" | "C05" | "C06" | "C07" | "C08" | "C09" | "C12" | "C13" | "C14" | "C15" | "C16" | "C17" | "C18" | "C20" | "C01") { return; }
@@ -549,6 +600,27 @@ fn c15(em: &mut Em, rng: &mut Rng, thorough: bool) {
         em.bump("ris_pairs");
         // a continuation that pops below the stack bottom differs legitimately; the generator excludes DECRC (Restore / ESC 8), resize pushes and pops its own
         if ra != rb { em.fail("C15", format!("after RIS the continuation {:?}/{:?} differs from a fresh {}x{} screen", ops, if via_parser { text.as_str() } else { "" }, cc, ll)); }
+    }
+    // histories that leave something behind in every component (and USE it, so that anything derived from it is computed),
+    // then RIS, then a continuation that consults every component
+    for k in 0..(if thorough { 1500 } else { 200 }) {
+        if !em.next_id() { continue; }
+        let (c, l) = *rng.pick(&[(10u32, 3u32), (20, 4), (80, 5), (8, 2), (3, 2), (140, 3)]);
+        let mut hist: Vec<Op> = Vec::new();
+        for _ in 0..(2 + rng.below(5)) { hist.push(match rng.below(14) {
+            0 => Op::Cha(Some(1 + rng.below(c as u64) as u32)), 1 => Op::SetTab, 2 => Op::Tbc(Some(3)), 3 => Op::Tab, 4 => Op::Sm(vec![3], true), 5 => Op::Rm(vec![3], true),
+            6 => Op::Margins(Some(1 + rng.below(l as u64) as u32), Some(1 + rng.below(l as u64) as u32)), 7 => { let (m, p) = gen_modes(rng); Op::Sm(m, p) } 8 => Op::DefCharset("0".into(), "(".into()),
+            9 => Op::ShiftOut, 10 => Op::Sgr(gen_sgr(rng)), 11 => Op::Draw(gen_text(rng)), 12 => Op::Resize(Some(1 + rng.below(l as u64 + 2) as u32), Some(1 + rng.below(c as u64 + 10) as u32)), _ => Op::Tab }); }
+        if k % 2 == 0 { hist.push(Op::Tab); }
+        let cont: Vec<Op> = vec![Op::Tab, Op::Draw("q".into()), Op::Tab, Op::Cup(Some(2), Some(2)), Op::Linefeed, Op::Draw("lqk~".into()), Op::Tab, Op::Cud(None), Op::Sgr(vec![7]), Op::Draw("z".into()), Op::Index, Op::Tab, Op::Ed(None)];
+        let take = 3 + rng.below(cont.len() as u64 - 2) as usize; let cont: Vec<Op> = cont[..take].to_vec();
+        em.arm(format!("{}x{} history {:?} then RIS then {:?}", c, l, hist, cont));
+        let (h2, c2, c3) = (hist.clone(), cont.clone(), cont.clone());
+        let ra = safe(move || { let mut a = Screen::new(c, l); for o in h2.iter() { o.apply(&mut a); } a.reset(); let dims = (a.columns, a.lines); for o in c2.iter() { o.apply(&mut a); } a.savepoints.clear(); (dims, snapshot(&a)) });
+        em.bump("ris_pairs");
+        match ra { None => em.fail("C01", format!("panic in history {:?} + RIS + {:?}", hist, cont)), Some(((cc, ll), sa)) => {
+            let rb = safe(move || { let mut b = Screen::new(cc, ll); for o in c3.iter() { o.apply(&mut b); } b.savepoints.clear(); snapshot(&b) });
+            if rb.as_ref() != Some(&sa) { em.fail("C15", format!("{}x{}: history {:?}, RIS, continuation {:?} differs from the continuation on a fresh {}x{} screen", c, l, hist, cont, cc, ll)); } } }
     }
 }
 
